@@ -45,7 +45,19 @@ class Event(T.NamedTuple):
     raw: str
 
 
+_PIPED = re.compile(r'[0-9a-fA-F]{8}-[0-9a-fA-F]{4}-[0-9a-fA-F]{4}-[0-9a-fA-F]{4}-[0-9a-fA-F]{12}\.(native|cross)\.ini')
+
+
+def abstract_name(rel: str) -> str:
+    """meson-private/<uuid>.native.ini (private copy of a piped machine file) -> meson-private/$PIPED.native.ini"""
+    return _PIPED.sub(lambda m: '$PIPED.' + m.group(1) + '.ini', rel)
+
+
 def _norm(path: str, bdir: str, tmpdir: str) -> str:
+    return abstract_name(_norm0(path, bdir, tmpdir))
+
+
+def _norm0(path: str, bdir: str, tmpdir: str) -> str:
     path = path.replace(' (deleted)', '')
     path = os.path.normpath(path)
     if path == bdir:
@@ -151,7 +163,8 @@ def main_pid(events: T.Sequence[Event]) -> int:
 
 
 def run_strace(cmd: T.Sequence[str], log: Path, env: T.Dict[str, str], watch: T.Optional[T.Sequence[str]] = None,
-               inject: T.Optional[T.Tuple[str, int]] = None, timeout: int = 600) -> T.Tuple[int, str]:
+               inject: T.Optional[T.Tuple[str, int]] = None, timeout: int = 600,
+               stdin_text: T.Optional[str] = None) -> T.Tuple[int, str]:
     """Run cmd under strace; returns (exit status of the command as strace reports it, combined output)."""
     st = ['strace', '-f', '-y', '-s', '0', '-o', str(log), '-e', 'trace=' + ','.join(TRACED)]
     if inject is not None:
@@ -160,7 +173,8 @@ def run_strace(cmd: T.Sequence[str], log: Path, env: T.Dict[str, str], watch: T.
         st += ['-P', p]
     try:
         p = subprocess.run(st + list(cmd), env=env, stdout=subprocess.PIPE, stderr=subprocess.STDOUT, timeout=timeout,
-                           text=True, errors='replace', stdin=subprocess.DEVNULL)
+                           text=True, errors='replace',
+                           **({'input': stdin_text} if stdin_text is not None else {'stdin': subprocess.DEVNULL}))
     except subprocess.TimeoutExpired as e:
         raise MachineryError(f'strace run timed out: {" ".join(cmd)}') from e
     return p.returncode, p.stdout
